@@ -103,6 +103,7 @@ def detect_cfg():
         "_ensure_valid_value_links" in rc,
         "_seat_replacement" in rc,
         "saved_connections" in src(topology._set_new_run_connections_with_fallback_recovery),
+        "_ensure_io_survives_replacement" in rc,
     ]
 
 
@@ -191,11 +192,29 @@ def _build(case):
             continue
         names[name] = Workflow(name, autoload=None) if cls == "Workflow" else N.CLASSES[cls](label=name)
         order.append(name)
+    # class-as-replacement: a template instance stands for the node the library will make itself
+    w.class_cands = {}
+    for name, cls in case.get("class_cands", []):
+        if name in names:
+            continue
+        names[name] = N.CLASSES[cls](label=name)
+        w.class_cands[name] = N.CLASSES[cls]
+        order.append(name)
     for name, inp in case.get("nonstrict", []):
         try:
             names[name].inputs[inp].strict_hints = False
         except Exception:  # noqa: BLE001
             pass
+    # nodes below the ones named so far (children of macro children / macro candidates): depth 2
+    known = {id(n) for n in names.values()}
+    for name in list(order):
+        n = names[name]
+        if _is_comp(n):
+            for label, ch in n.children.items():
+                if id(ch) not in known:
+                    known.add(id(ch))
+                    names[f"{name}/{label}"] = ch
+                    order.append(f"{name}/{label}")
     w.names, w.order, w.comp = names, order, comp
     w.nodes = [names[k] for k in order]
     w.nid = {id(n): i for i, n in enumerate(w.nodes)}
@@ -227,9 +246,10 @@ def _is_comp(n):
 
 
 def _snapshot(w):
-    s = {"label": [], "parent": [], "children": {}, "starting": {}, "conns": [], "val": [], "recv": []}
+    s = {"label": [], "parent": [], "children": {}, "starting": {}, "conns": [], "val": [], "recv": [], "cached": []}
     for i, n in enumerate(w.nodes):
         s["label"].append(n.label)
+        s["cached"].append(getattr(n, "_cached_inputs", None) is not None)
         p = n.parent
         s["parent"].append(None if p is None else w.nid.get(id(p), UNKNOWN))
         if _is_comp(n):
@@ -264,7 +284,8 @@ def _fmt(w, res, s):
         for c, _n, pname, _l, _ch in w.chans
         if pname in ("inputs", "outputs")
     )
-    return ["res " + res, "tree " + tree, "kids " + kids, "conn " + conn, "data " + data]
+    cache = " ".join(str(i) for i, c in enumerate(s["cached"]) if c)
+    return ["res " + res, "tree " + tree, "kids " + kids, "conn " + conn, "data " + data, "cache " + cache]
 
 
 def _hint(ch):
@@ -340,6 +361,9 @@ def _admit_lines(w, done):
 
 def _sync_lines(w, s, only_nonempty=False):
     lines = []
+    for i, c in enumerate(s["cached"]):
+        if c or not only_nonempty:
+            lines.append(f"cached {i} {int(c)}")
     for c, l in enumerate(s["conns"]):
         if l or not only_nonempty:
             lines.append(f"conns {c} " + " ".join(map(str, l)))
@@ -422,6 +446,45 @@ def run_impl(case):
                 bump("op:copychan")
                 bump(f"res:copychan:{res}")
                 continue
+            if kind in ("replacelabel", "replacecls"):
+                # by label: ["replacelabel", comp, "label", new]; by class: ["replacecls", comp, old, class_cand]
+                if op[1] not in w.names or op[3] not in w.names or (kind == "replacecls" and
+                        (op[2] not in w.names or op[3] not in w.class_cands)):
+                    continue
+                comp, new = w.names[op[1]], w.names[op[3]]
+                old = w.names[op[2]] if kind == "replacecls" else (comp.children.get(op[2]) if _is_comp(comp) else None)
+                if kind == "replacecls":
+                    new.label = old.label  # what `replacement(label=owned_node_instance.label)` will carry
+                    model.append(f"setlabel {w.nid[id(new)]} {new.label}")
+                before = _snapshot(w)
+                model += _admit_lines(w, admitted)
+                res = "ok"
+                try:
+                    if kind == "replacelabel":
+                        comp.replace_child(op[2], new)
+                    else:
+                        _old, real = comp.replace_child(old, w.class_cands[op[3]])
+                        _rebind(w, w.nid[id(new)], real, op[3])
+                        new = real
+                except Exception as e:  # noqa: BLE001
+                    res = type(e).__name__
+                after = _snapshot(w)
+                pid, nid_ = w.nid[id(comp)], w.nid[id(new)]
+                oid = w.nid.get(id(old), UNKNOWN) if old is not None else UNKNOWN
+                if kind == "replacelabel":
+                    model.append(f"replacelabel {pid} {op[2]} {nid_}")
+                else:
+                    model.append(f"replace {pid} {oid} {nid_}")
+                if res == "ok":
+                    replaced[after["label"][nid_]] = type(new).__name__
+                    if comp is not w.comp:
+                        replaced["__nested__"] = True
+                obs += _fmt(w, res, after)
+                snaps.append({"op": ["replace", op[1], op[2], op[3]], "ids": [pid, oid, nid_], "res": res, "before": before,
+                              "after": after, "comp_kind": _comp_kind(comp)})
+                bump(f"op:{kind}")
+                bump(f"res:{kind}:{res}")
+                continue
             if kind in ("replace", "copyio", "dag"):
                 if any(isinstance(a, str) and a not in w.names for a in op[1 : (3 if kind == "copyio" else 4)]):
                     continue
@@ -458,6 +521,8 @@ def run_impl(case):
                         line += f" U {n} " + " ".join(map(str, us))
                 if kind == "replace" and res == "ok":
                     replaced[after["label"][ids[2]]] = type(args[2]).__name__
+                    if args[0] is not w.comp:
+                        replaced["__nested__"] = True
                 model.append(line)
                 obs += _fmt(w, res, after)
                 snaps.append({"op": op, "ids": ids, "res": res, "before": before, "after": after,
@@ -487,6 +552,10 @@ def run_impl(case):
                         args[0].outputs[op[2]]._value = op[3]
                     elif kind == "lock":
                         args[0].running = True
+                    elif kind == "unlock":
+                        args[0].running = False
+                    elif kind == "run":
+                        args[0].run()
                     elif kind == "start":
                         args[0].starting_nodes = [w.names[x] for x in op[2]]
                 except Exception:  # noqa: BLE001
@@ -497,8 +566,7 @@ def run_impl(case):
                 for p, st in s["starting"].items():
                     model.append(f"start {p} " + " ".join(map(str, st)))
                 for i, n in enumerate(w.nodes):
-                    if getattr(n, "running", False):
-                        model.append(f"locked {i}")
+                    model.append(f"{'locked' if getattr(n, 'running', False) else 'unlocked'} {i}")
                 bump(f"op:{kind}")
     finally:
         FORBID.clear()
@@ -526,7 +594,7 @@ def _reference_outputs(case, replaced):
 
     from . import nodes_c14 as N
 
-    if case["top"] != "wf":
+    if case["top"] != "wf" or replaced.get("__nested__"):
         return None
     wf = Workflow("ref", autoload=None)
     try:
@@ -539,6 +607,25 @@ def _reference_outputs(case, replaced):
     except Exception as e:  # noqa: BLE001
         return "exc:" + type(e).__name__
     return _run_outputs(wf)
+
+
+def _rebind(w, idx, real, name):
+    """the node the library instantiated from the class takes the place of the template in the tables"""
+    tmpl = w.nodes[idx]
+    w.nodes[idx] = real
+    w.names[name] = real
+    w.nid.pop(id(tmpl), None)
+    w.nid[id(real)] = idx
+    panels = dict(_panels(real))
+    for k, (c, n, pname, lab, ch) in enumerate(w.chans):
+        if n == idx:
+            new_ch = panels[pname][lab]
+            w.cid.pop(id(ch), None)
+            w.cid[id(new_ch)] = c
+            w.chans[k] = (c, n, pname, lab, new_ch)
+    w.admit_rows = [(c, ch) for c, _n, p, _l, ch in w.chans
+                    if p in ("inputs", "outputs") and _hint(ch) is not None and ch.strict_hints]
+    w.garbage = getattr(w, "garbage", []) + [tmpl]
 
 
 def _comp_kind(n):
@@ -759,9 +846,21 @@ def _wf_case(rng, tier):
         # make one candidate already connected / turn an input non-strict / set a late value
         cand = rng.choice(case["cands"])[0]
         ops.append(["connect", cand, "x", rng.choice(labs), "o"])
+    if rng.random() < 0.06:
+        i = rng.randrange(n)
+        case["data"].append([labs[i], "o", labs[i], rng.choice(["x", "y"])])  # a self-connection
+    case["class_cands"] = [[f"k{i}", c] for i, c in enumerate(rng.sample([c for c in CAND_CLASSES if c != "Workflow"], 2))]
+    if rng.random() < 0.15:
+        ops.append(["run", "@wf"])  # fills the caches (and re-wires the signals)
+    for _ in range(rng.randint(0, 2) if rng.random() < 0.2 else 0):
+        ops.append(["lock", rng.choice(labs + [c[0] for c in case["cands"]])])  # a running node: inputs locked
     for _ in range(rng.randint(1, 3)):
         r = rng.random()
-        if r < 0.7:
+        if r < 0.12:
+            ops.append(["replacecls", "@wf", rng.choice(labs), rng.choice(case["class_cands"])[0]])
+        elif r < 0.22:
+            ops.append(["replacelabel", "@wf", rng.choice(labs + ["zz"]), rng.choice([c[0] for c in case["cands"]])])
+        elif r < 0.7:
             new = rng.choice([c[0] for c in case["cands"]] + labs[:1] + ["@wf"])
             ops.append(["replace", "@wf", rng.choice(labs), new])
         elif r < 0.85:
@@ -788,6 +887,47 @@ def _run_case(rng, tier):
     if rng.random() < 0.3:
         case["ops"].append(["replace", "@wf", rng.choice(LABELS[:n]), "r1" if case["ops"][0][3] == "r0" else "r0"])
     case["ops"].append(["runcheck", "@wf"])
+    return case
+
+
+def _nested_case(rng, tier):
+    """depth 2: a macro is itself a child of the workflow; replace it (by a function node with its interface, by another
+    macro, by something else), replace its neighbours, replace inside it"""
+    children = [["u", "Pxy"], ["v", "Pxy"], ["m", "MacIn"], ["d", "Pxy"], ["e", "Pxy"]]
+    data = []
+    for inp in ("p", "q"):
+        for src in rng.sample(["u", "v"], rng.choice([0, 1, 1, 2])):
+            data.append([src, "o", "m", inp])
+    for dst in ("d", "e"):
+        for inp in ("x", "y"):
+            for out in rng.sample(["r0", "r1"], rng.choice([0, 1, 2])):
+                data.append(["m", out, dst, inp])
+            if rng.random() < 0.4:
+                data.append([rng.choice(["u", "v"]), "o", dst, inp])
+    rng.shuffle(data)
+    case = {"top": "wf", "children": children, "data": data, "prewire": rng.random() < 0.5,
+            "vals": [["u", "x", 7]] if rng.random() < 0.5 else [],
+            "cands": [["r0", "Mpq"], ["r1", "MacIn"], ["r2", rng.choice(["Pxy", "Qxy", "Px", "Workflow"])], ["r3", "Qxy"]],
+            "class_cands": [["k0", rng.choice(["Mpq", "MacIn", "Pxy"])]], "ops": []}
+    ops = case["ops"]
+    if rng.random() < 0.2:
+        ops.append(["run", "@wf"])
+    if rng.random() < 0.15:
+        ops.append(["lock", rng.choice(["m", "r0", "r1", "d"])])
+    for _ in range(rng.randint(1, 3)):
+        r = rng.random()
+        if r < 0.45:
+            ops.append(["replace", "@wf", "m", rng.choice(["r0", "r1", "r2"])])
+        elif r < 0.55:
+            ops.append(["replacecls", "@wf", "m", "k0"])
+        elif r < 0.75:
+            ops.append(["replace", "@wf", rng.choice(["u", "d", "e"]), rng.choice(["r2", "r3"])])
+        elif r < 0.9:
+            ops.append(["replace", "m", rng.choice(["m/a", "m/b"]), rng.choice(["r3", "r2", "@wf", "m"])])
+        else:
+            ops.append(["dag", rng.choice(["@wf", "m"])])
+    if rng.random() < 0.3 and not any(o[0] == "lock" for o in ops):
+        ops.append(["runcheck", "@wf"])
     return case
 
 
@@ -900,6 +1040,8 @@ def gen_cases(rng, tier):
         yield _maps_case(rng, tier)
     for _ in range(40 if quick else 800):
         yield _run_case(rng, tier)
+    for _ in range(60 if quick else 1200):
+        yield _nested_case(rng, tier)
     if not quick:
         yield from _exhaustive()
     for lines in (["frobnicate 1 2", "replace 0 1", "copyio 0 1 2 3", "dag x"], ["cfg 1 1", "replace a b c", "dag 0 T 1"]):
